@@ -44,6 +44,7 @@ func runC11(c *Ctx) {
 	c.checkFanInOrder("fan-in-order")
 	c.checkNoLibraryGlobalWrites("library-global-state")
 	L.Note("packages analysed: %d (whole repository)", len(c.P.Pkgs))
+	c.checkRootHooks("root-hook-only")
 }
 
 func (c *Ctx) checkNondetCalls() {
